@@ -34,14 +34,13 @@ def _loss_timer_boundary(repo, chk):
     its deadline must declare the packet lost (non-strict comparison), else the same deadline is armed again and a
     caller that fires timers on time never advances"""
     dl = Fn(repo, "quic.recovery:QuicPacketRecovery._detect_loss")
-    apps = [c for c in dl.calls(suffix="append") if c.args and norm(c.args[0]) == "packet"]
     th = [norm(v) for st, t, v in dl.assigns(chain="time_threshold")]
-    arm = [norm(v) for st, t, v in dl.assigns(chain="packet_loss_time")] + [norm(v) for st, t, v in dl.assigns(chain="space.loss_time") if "sent_time" in norm(v)]
-    ok = len(apps) == 1 and th == ["now - loss_delay"] and any(a.replace(" ", "") == "packet.sent_time+loss_delay" for a in arm)
+    arms = [st for st, t, v in dl.assigns() if v is not None and norm(v).replace(" ", "") == "packet.sent_time+loss_delay"]
+    ok = th == ["now - loss_delay"] and len(arms) == 1
     if ok:
-        at = dl.guard_atoms(apps[0]) + dl.lexical_guards(apps[0], expand=False)
-        disj = [a[0] for a in at if a[1] and "time_threshold" in a[0]]
-        ok = any("time_threshold >= packet.sent_time" in d for d in disj)
+        # with sent_time <= time_threshold the "not lost yet" branch (which re-arms the timer) cannot be reached -
+        # one compound test, an elif chain or nested tests alike
+        ok = not dl.reaches_assuming(dl.cfg.entry, dl.cfg.node_of(arms[0]), [natom("packet.sent_time <= time_threshold")])
     chk.ob("R1", "_detect_loss declares a packet lost when the loss timer is handled exactly at its deadline (sent_time <= now - loss_delay)", ok, "with a strict comparison the packet is not lost at now == loss_time and the same deadline is armed again: get_timer() keeps naming a deadline that is not in the future", dl.loc(dl.node))
 
 
